@@ -641,6 +641,8 @@ def _with_optional_kwargs(
 @hide_trace
 def _parse_kwargs(kwargs: GuppyKwargs) -> UnitaryFlags:
     """Parses the kwargs dict specified in the `@guppy` decorator."""
+    # The dict belongs to the decorator object, which may be applied more than once
+    kwargs = dict(kwargs)  # type: ignore[assignment]
     flags = UnitaryFlags.NoFlags
     if kwargs.pop("unitary", False):
         flags |= UnitaryFlags.Unitary
